@@ -38,6 +38,8 @@ pub struct Mega {
     pub exps: Vec<Option<ExpResp>>,
     pub case: Case,
     pub desc: String,
+    /// class of the handshake response the conversation starts with
+    pub hs: String,
 }
 
 fn rcols(rng: &mut Rng, n: usize, bin: bool) -> Vec<Column> {
@@ -313,6 +315,10 @@ pub fn generate(rng: &mut Rng, max_cmds: usize) -> Mega {
         }
     }
     let mut case = conv.case();
+    // the client's handshake layout and capability mask vary too: none of it may change how the
+    // commands behind it are served
+    let (hs, hs_class) = random_handshake(rng);
+    case.handshake = hs;
     if conv.over() {
         // whatever follows the end of the connection must not be served
         case.cmds.push(Cmd::ping());
@@ -336,7 +342,7 @@ pub fn generate(rng: &mut Rng, max_cmds: usize) -> Mega {
     if rng.chance(1, 4) {
         case.write_limit = *rng.pick(&[1usize, 7, 64, 1000]);
     }
-    Mega { conv, exps, case, desc }
+    Mega { conv, exps, case, desc, hs: hs_class }
 }
 
 fn cols_match(got: &[wire::ColDef], want: &[Column]) -> Result<(), String> {
@@ -367,10 +373,11 @@ pub fn run(ctx: &Ctx, prop: &'static str, quick: u64, thorough: u64) -> Report {
         rep.counters.inc("mega_conversations");
         rep.counters.add("mega_commands", m.conv.m.len() as u64);
         rep.counters.class(format!("mega history shape {}", if m.desc.len() > 5 { &m.desc[..5] } else { &m.desc }));
+        rep.counters.class(format!("mega handshake {}", m.hs));
         if harness_panic(&obs, rep) {
             return;
         }
-        let d = || J::obj().set("workload", "shared mega conversation").set("history (Q query P prepare r rejected-prepare E rebind-execute e reuse-execute L long-data C close p ping I init F field-list @ select@@ ! dead-id X quit)", m.desc.clone()).set("arrival", format!("{:?}", case.arrival)).set("sched", case.sched.describe()).set("write_limit", if case.write_limit == usize::MAX { -1 } else { case.write_limit as i64 }).set("outcome", obs.outcome.describe());
+        let d = || J::obj().set("workload", "shared mega conversation").set("history (Q query P prepare r rejected-prepare E rebind-execute e reuse-execute L long-data C close p ping I init F field-list @ select@@ ! dead-id X quit)", m.desc.clone()).set("handshake", m.hs.clone()).set("arrival", format!("{:?}", case.arrival)).set("sched", case.sched.describe()).set("write_limit", if case.write_limit == usize::MAX { -1 } else { case.write_limit as i64 }).set("outcome", obs.outcome.describe());
         if i == 0 {
             rep.sample(d());
         }
